@@ -253,3 +253,87 @@ _wn.ensures = [
 ]
 _wn.props = ('C04',)
 _CT['dtw.warping_paths#psineg'] = _wn
+
+
+# ---------------------------------------------------------------------------------------------
+# dtw.distance with early abandoning (max_dist; C03).  M = s.adj_max_dist.  Every buffer cell *agrees* with the
+# specification: equal to W unless both are above M; the cells left of `sc` and right of `ec` of the previous row are above M.
+M_ = 's.adj_max_dist'
+AG_PREV = ('forall(lambda col: implies(JSrow({i} - 1, r, c, s.window) <= col <= c and 0 <= col - {skip} < length, '
+           'Agree(%s, dtw[{row} * length + col - {skip}], W({i}, col))), pattern=W({i}, col))' % M_)
+ABOVE_L = 'forall(lambda col: implies(1 <= col <= {sc} and col <= c, %s < W({i}, col)), pattern=W({i}, col))' % M_
+ABOVE_R = 'forall(lambda col: implies({ec} < col <= c, %s < W({i}, col)), pattern=W({i}, col))' % M_
+E_SETTLED = [x for x in D_SETTLED if x not in ('s.adj_max_dist == inf', 'sc == 0')] + [
+    '%s < inf' % M_, 'not (%s < 0)' % M_, 'sc >= 0', 'ec >= 0', 'psi_1b == 0', 'psi_2b == 0', 'psi_1e == 0', 'psi_2e == 0',
+    'psi_shortest == inf', '%s == MaxDistAdj(%s, kwargs["max_dist"])' % (M_, METRIC)]
+
+
+def ea_cases():
+    out = []
+    for il, inner, m in (('sq', 'squared euclidean', 0), ('eu', 'euclidean', 1)):
+        kw = dict(KW, inner_dist=('const', inner), psi='none', max_dist='val', use_pruning=('const', False))
+        out.append(dict(label='%s/maxdist' % il, params={'kwargs': kw}, metric=m, psi='nopsi'))
+    return out
+
+
+_ea = _copy.copy(_CT['dtw.distance'])
+_ea.name = 'dtw.distance#maxdist'
+_ea.cases = ea_cases()
+_ea.requires = ['%s >= 1' % R, '%s >= 1' % C, 'kwargs["window"] is None or kwargs["window"] >= 1',
+                'kwargs["penalty"] is None or kwargs["penalty"] >= 0', 'kwargs["max_length_diff"] is None',
+                'kwargs["max_dist"] > 0', 'MaxDistAdj(%s, kwargs["max_dist"]) < inf' % METRIC,
+                'not (MaxDistAdj(%s, kwargs["max_dist"]) < 0)' % METRIC, 'MaxDistAdj(%s, kwargs["max_dist"]) != 0' % METRIC]
+_ea.ensures = [
+    # early abandoning does not change the result: the unbounded value if it is within the (internal) bound, else inf
+    'implies(not (MaxDistAdj(%s, kwargs["max_dist"]) < Dend(0, 0)), result == vsqrt_if(%s, Dend(0, 0)))' % (METRIC, METRIC),
+    'implies(MaxDistAdj(%s, kwargs["max_dist"]) < Dend(0, 0), result == inf)' % METRIC,
+]
+_ea.loops = {
+    0: _CT['dtw.distance'].loops[0],
+    1: dict(head='for i in range(r)',
+            inv=E_SETTLED + ['skip == ' + SKIP('i - 1'),
+                             AG_PREV.format(i='i', skip='skip', row='i1'), LEFT.format(i='i', row='i1'),
+                             'implies(i == 0, sc == 0 and ec == 0)',
+                             ABOVE_L.format(sc='sc', i='i'), ABOVE_R.format(ec='ec', i='i')],
+            variant='r - i'),
+    2: dict(head='for ii in range(i1 * length, i1 * length + length)',
+            inv=E_SETTLED + ['0 <= i < r', 'skipp == ' + SKIP('i - 1'), 'skip == JSrow(i, r, c, s.window)',
+                             AG_PREV.format(i='i', skip='skipp', row='i0'),
+                             'implies(i == 0, sc == 0 and ec == 0)',
+                             ABOVE_L.format(sc='sc', i='i'), ABOVE_R.format(ec='ec', i='i'),
+                             'forall(lambda k: implies(i1 * length <= k < ii, dtw[k] == inf))'],
+            variant='i1 * length + length - ii'),
+    3: dict(head='for j in range(j_start, j_end)',
+            inv=E_SETTLED + ['0 <= i < r', 'skipp == ' + SKIP('i - 1'), 'skip == ' + SKIP('i'),
+                             'j_start >= JSrow(i, r, c, s.window)', 'j_end == JErow(i, r, c, s.window)',
+                             AG_PREV.format(i='i', skip='skipp', row='i0'),
+                             # the previous row beyond ec is above the bound (needed when the row is abandoned)
+                             ABOVE_R.format(ec='ec', i='i'),
+                             # this row: visited or skipped cells agree, the others still hold inf
+                             'forall(lambda col: implies(JSrow(i, r, c, s.window) <= col <= j and col <= c and 0 <= col - skip < length, '
+                             'Agree(%s, dtw[i1 * length + col - skip], W(i + 1, col))), pattern=W(i + 1, col))' % M_,
+                             'forall(lambda col: implies(JSrow(i, r, c, s.window) <= col <= c and j < col and 0 <= col - skip < length, '
+                             'dtw[i1 * length + col - skip] == inf))',
+                             LEFT.format(i='i + 1', row='i1'),
+                             # pruning bookkeeping
+                             ABOVE_L.format(sc='sc', i='i + 1'),
+                             'implies(not smaller_found, forall(lambda col: implies(1 <= col <= j, %s < W(i + 1, col)), pattern=W(i + 1, col)))' % M_,
+                             'forall(lambda col: implies(ec_next < col <= j, %s < W(i + 1, col)), pattern=W(i + 1, col))' % M_,
+                             'ec_next >= 0'],
+            variant='j_end - j'),
+}
+_ea.hints = {'d = idist_fn(': ['Mention(W(i, j)) and Mention(W(i, j + 1)) and Mention(W(i + 1, j)) and Mention(W(i + 1, j + 1))'],
+             # before the row is filled: the border cell of this row is above the bound (term + fact for RowAboveLeft)
+             'smaller_found = False': ['%s < W(i + 1, 0)' % M_, 'implies(i >= 1, %s < W(i, 0))' % M_],
+             # the cell just written is above the bound (both branches of the pruning test that follow rely on it)
+             'sc = j + 1': ['%s < W(i + 1, j + 1)' % M_],
+             'break': ['%s < W(i + 1, j + 1)' % M_,
+                       'forall(lambda col: implies(j + 1 <= col <= c, %s < W(i + 1, col)), pattern=W(i + 1, col))' % M_],
+             # after the cell is written: name the step (trigger of lemma AgreeStep), then state its agreement
+             'dtw[i1 * length + j + 1 - skip] = d + min(': [
+                 'AStep(%s, i + 1, j + 1, dtw[i0 * length + j - skipp], dtw[i0 * length + j + 1 - skipp], dtw[i1 * length + j - skip])' % M_,
+                 'Agree(%s, dtw[i1 * length + j + 1 - skip], W(i + 1, j + 1))' % M_]}
+_ea.theories = ('dtw', 'bounds', 'nonneg', 'astep', 'sqrtmono')
+_ea.lemmas = ['CellAbove', 'RowAboveLeft', 'RowAboveRight', 'AgreeStep', 'RowAllInf', 'RowLeadInf']
+_ea.props = ('C03',)
+_CT['dtw.distance#maxdist'] = _ea
